@@ -7,7 +7,7 @@ CRLF, trailing commas, redundant parentheses, method / pipe / function call styl
 one the grammar declares insignificant, applied only where the grammar has the construct."""
 import random
 
-NAMES = ['a', 'b', 'c', 'f', 'g', 'x', 'y', 'data', '%m n%', 'len']
+NAMES = ['a', 'b', 'c', 'f', 'g', 'x', 'y', 'data', '%m n%', 'len', '%a%', '%q.r%', '%p%']
 OPS = ['+', '-', '*', '/', '**', '==', '!=', '<', '>', '<=', '>=', 'and', 'or', 'in', 'not in']
 
 
@@ -126,6 +126,15 @@ class Plain:
         return '\n'.join(self.stmt(s) for s in stmts)
 
 
+COMMENT_PIECES = ['note', 'x,', ',', '+', '-', '*', '/', '**', 'and', 'or', 'not', 'in', 'if', 'else', '(', ')', '[', ']', '{', '}', '"', "'",
+                  '\\', '%', '%a%', '=>', '=', '==', ';', '#', ':', '.', '|', 'del', 'for', '\u03c0', '1', '1.5', 'amount,', 'total +']
+
+
+def comment_text(r):
+    """a comment whose text ends / starts with anything at all: operators, commas, keywords, brackets, quotes, backslashes"""
+    return '#' + r.choice(['', ' ']) + ' '.join(r.choice(COMMENT_PIECES) for _ in range(r.randint(0, 4)))
+
+
 class Decorated(Plain):
     def __init__(self, r, kinds=None):
         self.r = r
@@ -149,7 +158,7 @@ class Decorated(Plain):
                 self.hit('newline-in-brackets')
                 return r.choice([' \n ', '\n', '\r\n  ', '\n\n'])
             self.hit('comment-in-brackets')
-            return ' # c ] ) ;\n'
+            return ' ' + comment_text(r) + r.choice(['\n', '\r\n'])
         return ' '
 
     def operand(self, t):
@@ -252,16 +261,16 @@ class Decorated(Plain):
         out = []
         if r.random() < 0.15:
             self.hit('leading-blank-statement')
-            out.append(r.choice(['\n', ';', '\r\n', '  \n', '# only a comment\n']))
+            out.append(r.choice(['\n', ';', '\r\n', '  \n', comment_text(r) + '\n']))
         for i, s in enumerate(stmts):
             if i:
-                sep = r.choice(['\n', ';', '\r\n', ' ; ', '\n\n', ';;', ' # trailing comment\n', '\n;\n', ';\r\n'])
+                sep = r.choice(['\n', ';', '\r\n', ' ; ', '\n\n', ';;', ' ' + comment_text(r) + '\n', '  ' + comment_text(r) + '\r\n', '\n;\n', ';\r\n'])
                 self.hit('sep:' + repr(sep))
                 out.append(sep)
             out.append(self.stmt(s))
         if r.random() < 0.25:
             self.hit('trailing-blank-statement')
-            out.append(r.choice(['\n', ';', ' # end', '\r\n\r\n', ' ;', '\n# x']))
+            out.append(r.choice(['\n', ';', ' ' + comment_text(r), '\r\n\r\n', ' ;', '\n' + comment_text(r)]))
         return ''.join(out)
 
 
